@@ -81,6 +81,7 @@ type Run struct {
 	markF      *os.File
 	lastMark   atomic.Value
 	lastMarkAt int64
+	progress   int64 // bumped by every Mark / Case / Count: the watchdog fires only when nothing at all moves
 }
 
 func NewRun(prop string, seed int64, tier, outDir string) *Run {
@@ -112,18 +113,24 @@ func (r *Run) Mark(what string) {
 	r.markF.WriteAt(append([]byte(what), 0), 0)
 	r.lastMark.Store(what)
 	atomic.StoreInt64(&r.lastMarkAt, time.Now().UnixNano())
+	atomic.AddInt64(&r.progress, 1)
 }
 
 // watchdog: an implementation that BLOCKS (a lock left held, a wait that never ends) or runs away would stall the
-// harness for ever; when nothing has been marked for the limit, the input being run is reported and the run is finished.
+// harness for ever; when nothing at all has moved (no input noted, no case emitted, nothing counted) for the limit, the
+// input being run is reported and the run is finished.
 func (r *Run) watchdog(outDir string, limit time.Duration) {
+	seen, since := int64(-1), time.Now()
 	for {
 		time.Sleep(5 * time.Second)
-		at := atomic.LoadInt64(&r.lastMarkAt)
-		if at == 0 {
+		if atomic.LoadInt64(&r.lastMarkAt) == 0 {
 			continue
 		}
-		if time.Since(time.Unix(0, at)) > limit {
+		if p := atomic.LoadInt64(&r.progress); p != seen {
+			seen, since = p, time.Now()
+			continue
+		}
+		if time.Since(since) > limit {
 			what, _ := r.lastMark.Load().(string)
 			r.Violations = append(r.Violations, Violation{Kind: "implementation-blocks-or-does-not-return", Input: what,
 				Detail: fmt.Sprintf("no progress for %v while running this input; the harness run was cut short here", limit)})
@@ -143,10 +150,11 @@ func mark(what string) { markRun.Mark(what) }
 // Case records one correspondence case: the request the model will be run on and what the implementation did.
 func (r *Run) Case(req Sx, implObs Sx) {
 	r.n++
+	atomic.AddInt64(&r.progress, 1)
 	fmt.Fprintf(r.out, "%d\t%s\t%s\n", r.n, req, implObs)
 }
 
-func (r *Run) Count(k string) { r.Dist[k]++ }
+func (r *Run) Count(k string) { r.Dist[k]++; atomic.AddInt64(&r.progress, 1) }
 
 // Nontrivial marks a distinct non-trivial case (by key).
 func (r *Run) Nontrivial(key string) { r.nontrivial[key] = true }
